@@ -167,7 +167,9 @@ where
     }
 
     pub fn is_used(&self, value: T) -> bool {
-        !self.pool.iter().any(|iv| iv.contains(value))
+        self.lowest <= value
+            && value <= self.highest
+            && !self.pool.iter().any(|iv| iv.contains(value))
     }
 
     pub fn clear(&mut self) {
